@@ -185,32 +185,83 @@ theorem lossless_attr_needs_safe :
 
 /-! ## 4. the declared charset names the encoding used — or is left alone -/
 
-/-- HTML5 style. A `<meta>` with a `charset` attribute — whatever else it carries — gets the placeholder at parse time, and
-    rendering with `eventual_encoding = e` writes `e` there (the empty string for a Python-specific `e`), whatever the
-    old value was. -/
+/-- HTML5 style. A `<meta>` with a `charset` attribute — whatever else it carries, an HTML4-style declaration included —
+    gets the placeholder at parse time, and rendering with `eventual_encoding = e` writes `e` there (the empty string for a
+    Python-specific `e`), whatever the old value was. -/
 theorem meta_rewritten_charset (attrs : List (PStr × AttrVal)) (old : AttrVal) (e : PStr)
     (h : lookupAttr (ofS "charset") attrs = some old) :
     (lookupAttr (ofS "charset") (setUpSubstitutions (ofS "meta") attrs)).map (attrValue (some e))
       = some (if isPythonSpecific e then [] else e) := by
-  simp [setUpSubstitutions, h, lookup_setAttr, attrValue, substituteCharset]
+  have hne : ofS "charset" ≠ ofS "content" := by decide
+  simp [setUpSubstitutions, lookup_subContentStep _ hne, subCharsetStep, h, lookup_setAttr, attrValue, substituteCharset]
 
 /-- … and with `eventual_encoding = None` (`decode()` to str for a str destination) the old value is written back. -/
 theorem meta_untouched_charset (attrs : List (PStr × AttrVal)) (old : AttrVal)
     (h : lookupAttr (ofS "charset") attrs = some old) :
     (lookupAttr (ofS "charset") (setUpSubstitutions (ofS "meta") attrs)).map (attrValue none) = some old.str := by
-  simp [setUpSubstitutions, h, lookup_setAttr, attrValue]
+  have hne : ofS "charset" ≠ ofS "content" := by decide
+  simp [setUpSubstitutions, lookup_subContentStep _ hne, subCharsetStep, h, lookup_setAttr, attrValue]
 
 /-- `eventual_encoding = None` leaves *every* attribute value as parsed: placeholders render as their original text. -/
 theorem meta_untouched (v : AttrVal) : attrValue none v = v.str := by
   cases v <;> rfl
 
-/-- HTML4 style: `content` becomes a placeholder exactly when there is no `charset` attribute and `http-equiv` is
-    `content-type` in any letter case. -/
+/-- HTML4 style: `content` becomes a placeholder whenever `http-equiv` is `content-type` in any letter case — whether or
+    not the same tag also has a `charset` attribute (the repaired `if … if …`; 4.13.0's `elif` skipped this branch then, see
+    `meta_both_styles_old_stale`). -/
 theorem meta_content_placeholder (attrs : List (PStr × AttrVal)) (ct he : AttrVal)
-    (h0 : lookupAttr (ofS "charset") attrs = none) (h1 : lookupAttr (ofS "content") attrs = some ct)
+    (h1 : lookupAttr (ofS "content") attrs = some ct)
     (h2 : lookupAttr (ofS "http-equiv") attrs = some he) (h3 : asciiLower he.str = ofS "content-type") :
     lookupAttr (ofS "content") (setUpSubstitutions (ofS "meta") attrs) = some (.contentMeta ct.str) := by
-  simp [setUpSubstitutions, h0, h1, h2, h3, lookup_setAttr]
+  have hc : ofS "content" ≠ ofS "charset" := by decide
+  have hh : ofS "http-equiv" ≠ ofS "charset" := by decide
+  simp [setUpSubstitutions, subContentStep, lookup_subCharsetStep _ hc, lookup_subCharsetStep _ hh, h1, h2, h3, lookup_setAttr]
+
+/-- A single `<meta>` carrying both declaration styles gets both placeholders, so both are rewritten on output and no
+    stale `charset=` is left for a reader's regex to pick up. -/
+theorem meta_both_styles (attrs : List (PStr × AttrVal)) (cs ct he : AttrVal) (e : PStr)
+    (h0 : lookupAttr (ofS "charset") attrs = some cs) (h1 : lookupAttr (ofS "content") attrs = some ct)
+    (h2 : lookupAttr (ofS "http-equiv") attrs = some he) (h3 : asciiLower he.str = ofS "content-type") :
+    (lookupAttr (ofS "charset") (setUpSubstitutions (ofS "meta") attrs)).map (attrValue (some e)) = some (substituteCharset e)
+    ∧ (lookupAttr (ofS "content") (setUpSubstitutions (ofS "meta") attrs)).map (attrValue (some e))
+        = some (substituteContent e ct.str) := by
+  refine ⟨?_, ?_⟩
+  · rw [meta_rewritten_charset attrs cs e h0]; rfl
+  · rw [meta_content_placeholder attrs ct he h1 h2 h3]; rfl
+
+/-- `<meta charset="utf-8" content="text/html; charset=utf-8" http-equiv="content-type">` -/
+def metaBothAttrs : List (PStr × AttrVal) :=
+  [(ofS "charset", .plain (ofS "utf-8")), (ofS "content", .plain (ofS "text/html; charset=utf-8")),
+   (ofS "http-equiv", .plain (ofS "content-type"))]
+
+/-- The 4.13.0 mirror on that tag: encoding to `gbk` leaves `charset=utf-8` inside `content` (which dammit's greedy
+    `<meta[^>]+charset=` then prefers on re-parse); the repaired code rewrites both. -/
+theorem meta_both_styles_old_stale :
+    decodeNode (some (ofS "gbk")) [] (.tag (ofS "meta") (setUpSubstitutionsOld (ofS "meta") metaBothAttrs) [])
+      = ofS "<meta charset=\"gbk\" content=\"text/html; charset=utf-8\" http-equiv=\"content-type\"/>"
+    ∧ decodeNode (some (ofS "gbk")) [] (.tag (ofS "meta") (setUpSubstitutions (ofS "meta") metaBothAttrs) [])
+      = ofS "<meta charset=\"gbk\" content=\"text/html; charset=gbk\" http-equiv=\"content-type\"/>" := by decide
+
+/-- where at most one style is present the repair changes nothing -/
+theorem setUp_old_agrees (name : PStr) (attrs : List (PStr × AttrVal))
+    (h : lookupAttr (ofS "charset") attrs = none ∨ lookupAttr (ofS "content") attrs = none
+      ∨ lookupAttr (ofS "http-equiv") attrs = none) :
+    setUpSubstitutionsOld name attrs = setUpSubstitutions name attrs := by
+  unfold setUpSubstitutionsOld setUpSubstitutions
+  split
+  · rfl
+  · have hc : ofS "content" ≠ ofS "charset" := by decide
+    have hh : ofS "http-equiv" ≠ ofS "charset" := by decide
+    rcases h with h | h | h
+    · simp [subCharsetStep, h]
+    · cases hcs : lookupAttr (ofS "charset") attrs with
+      | none => simp [subCharsetStep, hcs]
+      | some cs => simp [subContentStep, lookup_subCharsetStep _ hc, h]
+    · cases hcs : lookupAttr (ofS "charset") attrs with
+      | none => simp [subCharsetStep, hcs]
+      | some cs =>
+        simp only [subContentStep, lookup_subCharsetStep _ hc, lookup_subCharsetStep _ hh, h]
+        cases lookupAttr (ofS "content") attrs <;> rfl
 
 /-- nothing but `<meta>` is touched -/
 theorem non_meta_untouched (name : PStr) (attrs : List (PStr × AttrVal)) (h : name ≠ ofS "meta") :
